@@ -1,6 +1,6 @@
 (* C18 proofs: code-page decoding followed by BOM stripping equals converting the input to UTF-8
    with the standard code page first and declaring utf-8; BOM handling. *)
-From Coq Require Import List NArith Bool String Lia.
+From Coq Require Import List NArith Bool String Lia PeanoNat.
 From Coq.Strings Require Import Byte.
 Import ListNotations.
 From OV Require Import Base.Bytes Base.Cases Base.Utf8 Gen.Encoding Model.Encoding.
@@ -249,6 +249,137 @@ Qed.
 Lemma strip_bom_no_bom s : starts_with bom_bytes s = false -> strip_bom s = s.
 Proof. intro H. rewrite strip_bom_spec, H. reflexivity. Qed.
 
+(* ---- StripBOM does not depend on how the source splits the input ---------------------------- *)
+(* once four bytes or a full rune are buffered, DecodeRune does not look further *)
+Lemma accept_lo_3 b : (b2n b <? 240) = true ->
+  accept_lo b = (if b2n b =? 224 then 160 else 128).
+Proof.
+  intro H. unfold accept_lo. destruct (b2n b =? 224); [reflexivity|].
+  destruct (b2n b =? 240) eqn:E; [|reflexivity].
+  apply N.eqb_eq in E. apply N.ltb_lt in H. lia.
+Qed.
+Lemma accept_hi_3 b : (b2n b <? 240) = true ->
+  accept_hi b = (if b2n b =? 237 then 159 else 191).
+Proof.
+  intro H. unfold accept_hi. destruct (b2n b =? 237); [reflexivity|].
+  destruct (b2n b =? 244) eqn:E; [|reflexivity].
+  apply N.eqb_eq in E. apply N.ltb_lt in H. lia.
+Qed.
+Lemma accept_lo_4 b : (b2n b <? 240) = false ->
+  accept_lo b = (if b2n b =? 240 then 144 else 128).
+Proof.
+  intro H. unfold accept_lo. destruct (b2n b =? 224) eqn:E; [|reflexivity].
+  apply N.eqb_eq in E. apply N.ltb_ge in H. lia.
+Qed.
+Lemma accept_hi_4 b : (b2n b <? 240) = false ->
+  accept_hi b = (if b2n b =? 244 then 143 else 191).
+Proof.
+  intro H. unfold accept_hi. destruct (b2n b =? 237) eqn:E; [|reflexivity].
+  apply N.eqb_eq in E. apply N.ltb_ge in H. lia.
+Qed.
+
+Lemma decode_rune_prefix p rest :
+  (4 <= List.length p)%nat \/ full_rune p = true -> decode_rune (p ++ rest) = decode_rune p.
+Proof.
+  intro H.
+  destruct p as [|b0 p']; [destruct H as [H|H]; [simpl in H; lia | discriminate]|].
+  assert (Hlen1 : ~ (4 <= List.length [b0])%nat) by (simpl; lia).
+  change ((b0 :: p') ++ rest) with (b0 :: (p' ++ rest)).
+  unfold decode_rune.
+  destruct (b2n b0 <? 128) eqn:H128; [reflexivity|].
+  destruct (b2n b0 <? 194) eqn:H194; [reflexivity|].
+  destruct (b2n b0 <? 224) eqn:H224.
+  { (* two-byte lead *)
+    destruct p' as [|b1 t]; [|reflexivity].
+    exfalso. destruct H as [H|H]; [contradiction|].
+    unfold full_rune, lead_size in H. rewrite H194, H224 in H. discriminate H. }
+  destruct (b2n b0 <? 240) eqn:H240.
+  { (* three-byte lead *)
+    destruct p' as [|b1 [|b2 t]]; [| |reflexivity].
+    - exfalso. destruct H as [H|H]; [contradiction|].
+      unfold full_rune, lead_size in H. rewrite H194, H224, H240 in H. discriminate H.
+    - destruct H as [H|H]; [simpl in H; lia|].
+      unfold full_rune, lead_size in H. rewrite H194, H224, H240 in H.
+      change (Nat.leb 3 (List.length [b0; b1])) with false in H. cbv iota in H.
+      rewrite (accept_lo_3 b0 H240), (accept_hi_3 b0 H240) in H.
+      destruct (in_range (if b2n b0 =? 224 then 160 else 128) (if b2n b0 =? 237 then 159 else 191) b1) eqn:Hr;
+        [discriminate H|].
+      change ([b1] ++ rest) with (b1 :: rest).
+      destruct rest as [|c0 rest]; [reflexivity|]. cbv zeta. rewrite Hr. reflexivity. }
+  destruct (b2n b0 <? 245) eqn:H245; [|reflexivity].
+  (* four-byte lead *)
+  destruct p' as [|b1 [|b2 [|b3 t]]]; [| | |reflexivity].
+  - exfalso. destruct H as [H|H]; [contradiction|].
+    unfold full_rune, lead_size in H. rewrite H194, H224, H240, H245 in H. discriminate H.
+  - destruct H as [H|H]; [simpl in H; lia|].
+    unfold full_rune, lead_size in H. rewrite H194, H224, H240, H245 in H.
+    change (Nat.leb 4 (List.length [b0; b1])) with false in H. cbv iota in H.
+    rewrite (accept_lo_4 b0 H240), (accept_hi_4 b0 H240) in H.
+    destruct (in_range (if b2n b0 =? 240 then 144 else 128) (if b2n b0 =? 244 then 143 else 191) b1) eqn:Hr;
+      [discriminate H|].
+    change ([b1] ++ rest) with (b1 :: rest).
+    destruct rest as [|c0 [|c1 rest]]; try reflexivity. cbv zeta. rewrite Hr. reflexivity.
+  - destruct H as [H|H]; [simpl in H; lia|].
+    unfold full_rune, lead_size in H. rewrite H194, H224, H240, H245 in H.
+    change (Nat.leb 4 (List.length [b0; b1; b2])) with false in H. cbv iota in H.
+    rewrite (accept_lo_4 b0 H240), (accept_hi_4 b0 H240) in H.
+    change ([b1; b2] ++ rest) with (b1 :: b2 :: rest).
+    destruct rest as [|c0 rest]; [reflexivity|].
+    cbv zeta.
+    destruct (in_range (if b2n b0 =? 240 then 144 else 128) (if b2n b0 =? 244 then 143 else 191) b1) eqn:Hr;
+      [|reflexivity].
+    simpl negb in H. cbv iota in H.
+    destruct (in_range 128 191 b2); [discriminate H | reflexivity].
+Qed.
+
+Lemma decode_rune_size_le s : s <> [] -> (snd (decode_rune s) <= List.length s)%nat.
+Proof.
+  destruct s as [|b0 r]; [contradiction|]. intros _. unfold decode_rune.
+  destruct (b2n b0 <? 128); [simpl; lia|]. destruct (b2n b0 <? 194); [simpl; lia|].
+  destruct (b2n b0 <? 224).
+  { destruct r as [|b1 r]; [simpl; lia|]. destruct (in_range 128 191 b1); simpl; lia. }
+  destruct (b2n b0 <? 240).
+  { destruct r as [|b1 [|b2 r]]; try (simpl; lia).
+    match goal with |- context[if ?c then _ else _] => destruct c end; simpl; lia. }
+  destruct (b2n b0 <? 245); [|simpl; lia].
+  destruct r as [|b1 [|b2 [|b3 r]]]; try (simpl; lia).
+  match goal with |- context[if ?c then _ else _] => destruct c end; simpl; lia.
+Qed.
+
+Lemma fill_until_spec pieces : forall buf buf' rest,
+  fill_until buf pieces = (buf', rest) ->
+  buf' ++ List.concat rest = buf ++ List.concat pieces
+  /\ (rest = [] \/ (4 <= List.length buf')%nat \/ full_rune buf' = true).
+Proof.
+  induction pieces as [|c r IH]; intros buf buf' rest H.
+  - simpl in H. inversion H; subst. split; [reflexivity | left; reflexivity].
+  - cbn [fill_until] in H. destruct (Nat.leb 4 (List.length buf) || full_rune buf) eqn:Hc.
+    + inversion H; subst. split; [reflexivity|]. right.
+      apply orb_true_iff in Hc as [Hc|Hc]; [left; apply Nat.leb_le; exact Hc | right; exact Hc].
+    + apply IH in H as [H1 H2]. split; [|exact H2].
+      rewrite H1. simpl. rewrite app_assoc. reflexivity.
+Qed.
+
+Lemma strip_bom_pieces_spec pieces : strip_bom_pieces pieces = strip_bom (List.concat pieces).
+Proof.
+  unfold strip_bom_pieces.
+  destruct (fill_until [] pieces) as [buf rest] eqn:Hf.
+  apply fill_until_spec in Hf as [Hcat Hstop]. simpl in Hcat. rewrite <- Hcat.
+  destruct buf as [|b0 buf].
+  - (* nothing could be buffered: the source is exhausted *)
+    destruct Hstop as [-> | [Hl | Hfr]]; [reflexivity | simpl in Hl; lia | discriminate].
+  - assert (Hd : decode_rune ((b0 :: buf) ++ List.concat rest) = decode_rune (b0 :: buf)).
+    { destruct Hstop as [-> | Hstop]; [simpl; rewrite app_nil_r; reflexivity|].
+      apply decode_rune_prefix. exact Hstop. }
+    unfold strip_bom. change ((b0 :: buf) ++ List.concat rest) with (b0 :: (buf ++ List.concat rest)) at 1.
+    cbv beta iota. change (b0 :: (buf ++ List.concat rest)) with ((b0 :: buf) ++ List.concat rest).
+    rewrite Hd. destruct (decode_rune (b0 :: buf)) as [rn n] eqn:Ed.
+    destruct (rn =? BOM); [|reflexivity].
+    pose proof (decode_rune_size_le (b0 :: buf) ltac:(discriminate)) as Hn. rewrite Ed in Hn. simpl in Hn.
+    rewrite skipn_app.
+    replace (n - List.length (b0 :: buf))%nat with 0%nat by (simpl; lia). reflexivity.
+Qed.
+
 (* ---- the pipeline, over the facts extracted from header.go / schema.go --------------------- *)
 Definition dec_of (e : encoding) : decoder_id :=
   match e with Utf8 => DecIdentity | Latin1 => DecISO8859_1 | Win1252 => DecWindows1252 end.
@@ -337,6 +468,13 @@ Qed.
 Lemma decode_chunk_invariant e chunks :
   List.concat (map (decode_with (dec_of e)) chunks) = decode_with (dec_of e) (List.concat chunks).
 Proof. symmetry. apply decode_with_concat. Qed.
+
+(* However the decoded stream reaches StripBOM's bufio.Reader - in whatever pieces - the
+   format reader receives the same bytes. *)
+Lemma pipeline_split_invariant e input pieces :
+  List.concat pieces = decode_with (dec_of e) input ->
+  Ok (strip_bom_pieces pieces) = pipeline (Some (enc_name e)) input.
+Proof. intro H. rewrite pipeline_unfold, strip_bom_pieces_spec, H. reflexivity. Qed.
 
 (* ---- the tables observed from the implementation ---------------------------------------------- *)
 (* check_case on a TableCase is a complete comparison over the finite domain. *)
